@@ -15,7 +15,7 @@ RULE = ('same module compositions as C02 (import graphs with diamonds, duplicate
         'claims in declaration order, one discharge per claim, under ONE injective symbol name<->number map per triple. Fault class F7 (12% of runs): modules that need more than '
         '256 symbols / a variable or metavariable id above 255 / a constraint list longer than 255 / more than 256 memory slots: serialisation must raise, never wrap around. '
         'Non-trivial = at least 2 published axioms or 2 claims or an F7 module; distinct = distinct event-log digests.')
-PROBES = ['claims_ge2', 'import_depth_ge2', 'diamond_import', 'notation_in_claim', 'optimized_differs', 'f7_refused', 'axioms_ge3', 'symbol_id_ge128']
+PROBES = ['claims_ge2', 'import_depth_ge2', 'diamond_import', 'notation_in_claim', 'optimized_differs', 'f7_refused', 'axioms_ge3', 'symbol_id_ge128', 'grown_axiom_in_main', 'grown_axiom_in_submodule', 'grown_claim', 'grown_import']
 ASSUMPTIONS = _c02.ASSUMPTIONS + ['order of publication across modules: imported modules before the importing one, depth first (the property only says "in order")']
 
 
@@ -97,4 +97,4 @@ def shrink(sc):
             if n < sc['n']:
                 yield dict(sc, n=n)
         return
-    yield from _p.shrink_recipe(sc)
+    yield from _c02.shrink(sc)
